@@ -165,6 +165,10 @@ def gen_desc(rng, tier, pool=None, integer=False):
                 s[0] = int(s[0])
         if d["sites"] or rng.random() < 0.1:
             break
+    if rng.random() < 0.2:
+        d = add_tail(rng, d, integer)
+    # node ids not in time order (samples not first, not in id order relative to time)
+    d, _pi = gen_ts.permute_node_ids(rng, d)
     if rng.random() < 0.3:
         # application-defined flag bits: only bit 0 decides whether a node is a sample
         for nd in d["nodes"]:
@@ -177,6 +181,64 @@ def gen_desc(rng, tier, pool=None, integer=False):
                 nd[0] = 0
     return d
 
+
+def add_tail(rng, d, integer):
+    """a long edge-less end region (every node isolated there), usually with a site in it"""
+    d = dict(d)
+    oldL = d["L"]
+    d["L"] = oldL + rng.choice([1, 3, 7])
+    n = len(d["nodes"])
+    if n and rng.random() < 0.8:
+        pos = oldL + rng.randrange(0, d["L"] - oldL) + (0 if integer else rng.choice([0, 0.5]))
+        pool = sorted({m[2] for m in d["mutations"]} | {x[1] for x in d["sites"]} | {"A", "C"})
+        sites = list(d["sites"]) + [[pos, rng.choice(pool), ""]]
+        known = any(m[4] is not None for m in d["mutations"])
+        us = sorted((rng.randrange(n) for _ in range(rng.randrange(0, 4))), key=lambda u: -d["nodes"][u][1])
+        muts = list(d["mutations"])
+        last = {}
+        for u in us:
+            muts.append([len(sites) - 1, u, rng.choice(pool), last.get(u, NULL),
+                         d["nodes"][u][1] if known else None, ""])
+            last[u] = len(muts) - 1
+        d["sites"], d["mutations"] = sites, muts
+    return d
+
+
+def gen_capacity(rng, m, alen=None):
+    """a site with exactly m distinct alleles (allele array capacities 4, 8, 16, ... are crossed at
+    m = 2^k - 1, 2^k, 2^k + 1); allele strings of length alen (power-of-two boundaries)"""
+    d = gen_ts.random_desc(rng, max_nodes=rng.choice([6, 9]), max_L=2, max_sites=1, max_muts=0,
+                           metadata=False, individuals=False, populations=False,
+                           p_internal_sample=0.2, p_gap=0.0, p_root=0.2, alleles=("A",), scale=1)
+    n = len(d["nodes"])
+    if not d["sites"]:
+        d["sites"] = [[0, "A", ""]]
+    if n == 0:
+        return d
+
+    def name(i):
+        base = "c%d" % i
+        return base if alen is None else (base + "x" * alen)[:max(alen, len(base))] if alen >= len(base) else base
+    d["sites"][0][1] = name(0)
+    par = gen_ts.parent_at(d, d["sites"][0][0])
+    us = sorted((rng.randrange(n) for _ in range(m - 1)), key=lambda u: -d["nodes"][u][1])
+    muts, last_on = [], {}
+    for j, u in enumerate(us):
+        v, mp = u, NULL
+        while v != NULL:
+            if v in last_on:
+                mp = last_on[v]
+                break
+            v = par[v]
+        muts.append([0, u, name(j + 1), mp, None, ""])
+        last_on[u] = j
+    d["mutations"] = muts
+    d, _pi = gen_ts.permute_node_ids(rng, d)
+    return d
+
+
+CAPACITY = [3, 4, 5, 7, 8, 9, 15, 16, 17, 31, 32, 33, 63, 64, 65, 127, 128, 129]
+ALLELE_LEN = [1, 2, 3, 4, 7, 8, 9, 15, 16, 17, 31, 32, 33, 63, 64, 65, 255, 256, 257]
 
 MANY = tuple("a%d" % i for i in range(160)) + ("",)
 
@@ -219,7 +281,7 @@ def gen_wide(rng, kind):
     """integer-width cases: >= 256 children of one node, >= 256 mutations / alleles at a site"""
     pool = tuple("b%d" % i for i in range(700))
     if kind == "star":
-        k = rng.choice([257, 300])
+        k = rng.choice([65, 129, 257, 300])
         nodes = [[1 if rng.random() < 0.9 else 0, 0, NULL, NULL, ""] for _ in range(k)] + [[0, 1, NULL, NULL, ""]]
         edges = [[0, 1, k, c, ""] for c in range(k) if rng.random() < 0.98]
         muts, last = [], {}
@@ -259,6 +321,8 @@ def gen_samples(rng, desc, malformed_ok=True):
     r = rng.random()
     if r < 0.3 or n == 0:
         return None
+    if r < 0.4:
+        return rng.sample(ss, len(ss))                       # a permutation of ALL samples
     if r < 0.6:
         k = rng.randrange(0, len(ss) + 1)
         return rng.sample(ss, k)
@@ -385,11 +449,16 @@ class Decode(Family):
         n = 2000 if tier == "quick" else 20000
         many = 4 if tier == "quick" else 40
         wide = ["star", "muts"] if tier == "quick" else ["star", "muts"] * 4
+        caps = ([(m, None) for m in CAPACITY] + [(rng.choice([2, 5]), a) for a in ALLELE_LEN]) * (1 if tier == "quick" else 3)
         for i in range(n):
             if i < len(wide):
                 desc = gen_wide(rng, wide[i])
+                if rng.random() < 0.7:
+                    desc, _pi = gen_ts.permute_node_ids(rng, desc, p=1.0)
+            elif i < len(wide) + len(caps):
+                desc = gen_capacity(rng, *caps[i - len(wide)])
             else:
-                desc = gen_many_alleles(rng) if i < many + len(wide) else gen_desc(rng, tier)
+                desc = gen_many_alleles(rng) if i < many + len(wide) + len(caps) else gen_desc(rng, tier)
             ns = len(desc["sites"])
             samples = gen_samples(rng, desc)
             iam = rng.choice([True, True, False, None])
@@ -506,6 +575,20 @@ class Decode(Family):
                 d["freqs_rm"] = [[k, frac(f, tot)] for k, f in fr2.items()]
             except Exception as e:
                 d["counts"] = {"exc": type(e).__name__, "msg": str(e)[:80]}
+            # aliasing: mutate whatever the accessors returned, then re-probe the variant
+            alias = []
+            for name in ("genotypes", "samples"):
+                arr = getattr(v, name)
+                try:
+                    arr[...] = 77
+                    alias.append(name + ":written")
+                except ValueError:
+                    alias.append(name + ":read-only")
+            al_t = v.alleles
+            d["alias"] = alias
+            d["alias_ok"] = ([int(g) for g in v.genotypes] == d["genotypes"] and
+                             [int(u) for u in v.samples] == d["vsamples"] and
+                             isinstance(al_t, tuple) and list(v.alleles) == d["alleles"])
             obs["decodes"].append(d)
             copies.append((v.copy(), d))
         # copies must be unaffected by later decodes and refuse to decode
@@ -587,6 +670,8 @@ class Decode(Family):
                 continue
             al = d["alleles"]
             g = d["genotypes"]
+            if not d.get("alias_ok", True):
+                out.append(("aliasing", "site %d: writing into the returned arrays (%r) changed the variant" % (s, d.get("alias"))))
             if d["site_id"] != s:
                 out.append(("site-id", "decode(%d) reports site %d" % (s, d["site_id"])))
             if d["vsamples"] != nodes or len(g) != len(nodes):
@@ -1320,7 +1405,16 @@ class Exhaustive(Decode):
     def generate(self, rng, tier):
         maxlen = 2 if tier == "quick" else 3
         states = ("A", "C")
-        for base in BASES:
+        bases = [(b, maxlen) for b in BASES]
+        for b in BASES:
+            # the same forests with node ids in reverse (ancestors first, samples last)
+            nn = len(b["nodes"])
+            pi = [nn - 1 - u for u in range(nn)]
+            rb = dict(b)
+            rb["nodes"] = [b["nodes"][nn - 1 - u] for u in range(nn)]
+            rb["edges"] = [[l, r, pi[p_], pi[c], m] for l, r, p_, c, m in b["edges"]]
+            bases.append((rb, 1 if tier == "quick" else 2))
+        for base, maxlen in bases:
             n = len(base["nodes"])
             par = gen_ts.parent_at(base, base["sites"][0][0])
             ss = ts_samples(base)
